@@ -5,12 +5,13 @@ import (
 )
 
 var (
-	ErrDBWrongFileSize   = errors.New("db file size is invalid")
-	ErrDBWrongFileCode   = errors.New("db file code not matched")
-	ErrDBWrongVersion    = errors.New("db version not allowed")
-	ErrDBWrongType       = errors.New("db type not allowed")
-	ErrDBWrongPubKeyHash = errors.New("db pubKey hash is not matched with pubKey")
-	ErrDBWrongMapType    = errors.New("db mapType is not valid")
+	ErrDBWrongFileSize    = errors.New("db file size is invalid")
+	ErrDBWrongFileCode    = errors.New("db file code not matched")
+	ErrDBWrongVersion     = errors.New("db version not allowed")
+	ErrDBWrongType        = errors.New("db type not allowed")
+	ErrDBWrongPubKeyHash  = errors.New("db pubKey hash is not matched with pubKey")
+	ErrDBWrongMapType     = errors.New("db mapType is not valid")
+	ErrDBHeaderNotMatched = errors.New("db header is not matched with file name")
 
 	ErrAlreadyPlotting = errors.New("db already been plotting")
 	ErrStopPlotting    = errors.New("db stop plotting")
